@@ -524,6 +524,7 @@ pub proof fn lemma_by_offset(p: &Partition, lo: int, hi: int, start: int, count:
         let d = p.segments@.subrange(lo, hi); let dl = log_upto(d, hi - lo);
         &&& segs_wf(d)
         &&& forall|i: int| 0 <= i < d.len() ==> (#[trigger] d[i]).start_offset + count <= u64::MAX
+        &&& forall|i: int| 0 <= i < d.len() ==> disk_pre(#[trigger] d[i], start, count)
         &&& start + count <= u64::MAX
         &&& lo == hi ==> start < first_retained(p) && earliest_run(log(p), Seq::<RetainedMessage>::empty(), start, count)
         &&& lo < hi ==> {
@@ -540,6 +541,24 @@ pub proof fn lemma_by_offset(p: &Partition, lo: int, hi: int, start: int, count:
     lemma_sub_wf(segs, lo, hi);
     lemma_starts_bounded(p);
     assert forall|i: int| 0 <= i < d.len() implies (#[trigger] d[i]).start_offset + count <= u64::MAX by { assert(d[i] == segs[lo + i]); }
+    // the disk-tier preconditions: only the first intersecting segment can start below `start`, and `start` then lies inside it
+    assert forall|i: int| 0 <= i < d.len() implies disk_pre(#[trigger] d[i], start, count) by {
+        let n = segs.len() as int; let j = lo + i;
+        assert(d[i] == segs[j]);
+        assert(segs[j].start_offset <= next_offset(p));
+        assert(seg_all(&segs[j]).len() <= u32::MAX);
+        if segs[j].start_offset <= start {
+            if j + 1 < n {
+                assert(seg_all(&segs[j]).len() > 0 && segs[j].start_offset + seg_all(&segs[j]).len() == segs[j + 1].start_offset);
+                if i > 0 {
+                    assert(seg_hits(segs, lo, start, end));
+                    if lo + 1 < j { lemma_sorted_ij(segs, lo + 1, j); }
+                } else {
+                    assert(seg_hits(segs, j, start, end));
+                }
+            }
+        }
+    }
     if lo == hi {
         assert forall|i: int| 0 <= i < segs.len() implies !seg_hits(segs, i, start, end) by {}
         lemma_no_hit(p, start, count, end);
